@@ -25,17 +25,25 @@ import (
 type execStream struct {
 	stream string
 	n      int
-	pad    func(r *core.Rand, idx int) []byte
+	// anchored: the pad length is chosen so that the marker starts idx+shift
+	// bytes behind the start of the first scan unit that lies completely in the
+	// pad. The same idx then means the same alignment whatever the size of the
+	// CLI binary built from the current tree (stable replays).
+	anchored bool
+	fill     byte // what the pad consists of up to that unit
+	shift    int
+	pad      func(r *core.Rand, n int) []byte // n = pad length for anchored streams, else idx
 }
 
+const execSpan = unitLen + 100 // one full period of either geometry, and a bit
+
 func execStreams() []execStream {
-	span := unitLen + 100 // one full period of either geometry behind the real binary, and a bit
 	return []execStream{
-		{"exec-zeros", span, func(r *core.Rand, idx int) []byte { return zeros(idx) }},
-		{"exec-allhash", span, func(r *core.Rand, idx int) []byte { return allHash(idx) }},
-		{"exec-partialB-gap0", 700, func(r *core.Rand, idx int) []byte { return partialBefore(3600+idx, partialB, 0) }},
-		{"exec-random-d4096", 500, func(r *core.Rand, idx int) []byte { return randomFill(r, r.Range(0, 4*unitLen), 4096) }},
-		{"exec-random-d64", 200, func(r *core.Rand, idx int) []byte { return randomFill(r, r.Range(0, 2*unitLen), 64) }},
+		{"exec-zeros", execSpan, true, 0, 0, func(r *core.Rand, n int) []byte { return zeros(n) }},
+		{"exec-allhash", execSpan, true, '#', 0, func(r *core.Rand, n int) []byte { return allHash(n) }},
+		{"exec-partialB-gap0", 700, true, 0, 3600, func(r *core.Rand, n int) []byte { return partialBefore(n, partialB, 0) }},
+		{"exec-random-d4096", 500, false, 0, 0, func(r *core.Rand, idx int) []byte { return randomFill(r, r.Range(0, 4*unitLen), 4096) }},
+		{"exec-random-d64", 200, false, 0, 0, func(r *core.Rand, idx int) []byte { return randomFill(r, r.Range(0, 2*unitLen), 64) }},
 	}
 }
 
@@ -63,6 +71,26 @@ func (e *execEnv) openVariant() (string, *os.File, error) {
 		time.Sleep(5 * time.Millisecond)
 	}
 	return name, f, err
+}
+
+// anchor is the file offset of the first scan unit that starts behind the CLI
+// binary when the pad consists of fill bytes.
+func (e *execEnv) anchor(fill byte) int {
+	n := len(e.baseTail)
+	p := 0
+	for p < n {
+		end := p + blockLen
+		hash := end > n && fill == '#'
+		if end > n {
+			end = n
+		}
+		if hash || bytes.IndexByte(e.baseTail[p:end], '#') >= 0 {
+			p += unitLen
+		} else {
+			p += blockLen
+		}
+	}
+	return e.p0 + p
 }
 
 func repoDir() string {
@@ -166,7 +194,11 @@ func (w *bannerWatch) Write(p []byte) (int, error) {
 
 func execCase(c *core.Ctx, env *execEnv, fo *forest, s execStream, idx int) {
 	r := c.Rng(s.stream, idx)
-	pad, changed := sanitize(s.pad(r, idx))
+	n := idx
+	if s.anchored {
+		n = env.anchor(s.fill) - int(env.baseSize) + idx + s.shift
+	}
+	pad, changed := sanitize(s.pad(r, n))
 	if changed > 0 {
 		c.Event("filler.sanitized", 1)
 	}
